@@ -100,21 +100,27 @@ class Expander:
         N = self.int_bound
         if t.is_forall():
             if z3.is_app(body) and body.decl().kind() == z3.Z3_OP_IMPLIES:
-                guards = [body.arg(0)]
-            elif z3.is_or(body):
-                # simplified form of an implication:  not G1 or not G2 or R   ==   (G1 and G2) -> R
-                guards = [d.arg(0) for d in body.children() if z3.is_not(d)]
+                todo = [body.arg(0)]
+            elif z3.is_or(body):     # simplified implication: Or(Not(guard), ...)
+                todo = [d.arg(0) for d in body.children() if z3.is_not(d)]
+                if not todo:
+                    return {}
             elif z3.is_not(body):
-                guards = [body.arg(0)]
+                todo = [body.arg(0)]
             else:
                 return {}
         else:
-            guards = [body]
-        conj, todo = [], list(guards)
-        while todo:      # nested conjunctions are flattened
+            todo = [body]
+        conj = []
+        while todo:    # nested conjunctions are flattened: And(And(0 <= i, i < n), filter) bounds i as well
             g = todo.pop()
             if z3.is_and(g):
                 todo.extend(g.children())
+            elif z3.is_not(g) and z3.is_app(g.arg(0)) and g.arg(0).num_args() == 2 and g.arg(0).decl().kind() in (
+                    z3.Z3_OP_LE, z3.Z3_OP_LT, z3.Z3_OP_GE, z3.Z3_OP_GT):
+                # simplified comparisons: Not(a <= b) is b < a, ...
+                a, b = g.arg(0).arg(0), g.arg(0).arg(1)
+                conj.append({z3.Z3_OP_LE: b < a, z3.Z3_OP_LT: b <= a, z3.Z3_OP_GE: a < b, z3.Z3_OP_GT: a <= b}[g.arg(0).decl().kind()])
             else:
                 conj.append(g)
         ids = {c.get_id(): k for k, c in enumerate(cs)}
